@@ -595,6 +595,10 @@ func (s *Module) AddMPTNodes(nodes [][]byte) error {
 		if r.Err != nil {
 			return fmt.Errorf("failed to decode MPT node: %w", r.Err)
 		}
+		// Hash and Empty nodes are never requested (and Empty one can't be hashed).
+		if t := n.Node.Type(); t == mpt.HashT || t == mpt.EmptyT {
+			return fmt.Errorf("unexpected MPT node of type %d", t)
+		}
 		err := s.restoreNode(n.Node)
 		if err != nil {
 			return err
